@@ -145,6 +145,9 @@ def gen(rng):
             stdin = ''.join(rng.choice(['y', 'n', 'Y', 'yes']) + '\n' for _ in range(k_)) + rng.choice(['', '', 'y', 'n'])
     if rng.random() < 0.3:
         opts.append(rng.choice(['-v', '-vv']))
+    if rng.random() < 0.05 and not deeptrash and '--home-fallback' not in opts:
+        # a trash directory named relative to the current directory (cd ~/project && trash-put -v --trash-dir .trash ...)
+        opts += ['--trash-dir', rng.choice(['T-rel', './T-rel', '.trash'])] + ([rng.choice(['-v', '-vv'])] if rng.random() < 0.6 else [])
     return {
         'world': {'mounts': L['mounts'], 'steps': steps},
         'procs': [{'argv': ['trash-put'] + opts + ['--'] + args, 'env': env, 'cwd': cwd, 'uid': uid, 'stdin': stdin}],
